@@ -1077,7 +1077,8 @@ class CompositeEnvelope:
                         os = s.envelope.polarization
                     elif isinstance(s, Polarization):
                         os = s.envelope.fock
-                    if os not in state_list:
+                    # Compare by identity, fock states with the same state are equal
+                    if not any(os is other for other in state_list):
                         state_list.append(os)
 
         # If the state resides in the BaseState or Envelope measure there
